@@ -22,10 +22,10 @@ const c05Sentinel = 0xA5
 
 type c05Scratch struct {
 	exact [16]byte
-	buf  [16]byte
-	bb   bytes.Buffer
-	rd   bytes.Reader
-	data [24]byte
+	buf   [16]byte
+	bb    bytes.Buffer
+	rd    bytes.Reader
+	data  [24]byte
 }
 
 func c05CheckVarInt(v int32, s *c05Scratch) *pbt.Violation {
